@@ -125,6 +125,11 @@ func (t *template) layout(ctx context.Context, w io.Writer) error {
 			// Parse the template bytes to get DOM nodes
 			templateNodes, err := parser.ParseTemplateBytes(tpl.templateBytes)
 			if err == nil {
+				// v-once elements inside the inherited slot content need their IDs like any other
+				onceCtx := NewVueContext(filename, &VueContextOptions{})
+				for _, n := range templateNodes {
+					assignSeenAttrs(&onceCtx, n)
+				}
 				inheritedSlotScope = extractSlotsFromDOM(templateNodes)
 			}
 		}
